@@ -60,6 +60,13 @@ type M0 struct {
 }
 
 type U16 uint16
+
+type Nm string
+
+type H0 struct {
+	cb func(uint64) uint64
+	n  uint64
+}
 '''
 
 HELPERS = HELPERS_S0 + HELPERS_REST
@@ -180,6 +187,13 @@ STMTS = {
     "bytes-of-string-via-uint8": "bu := []uint8(\"abc\")\nacc += uint64(len(bu))",
     "const-fold-wide": "var cw uint64 = (1 << 70) >> 68\nacc += cw",
     "slice-of-functions-call": "fs := make([]func(uint64) uint64, 1)\nfs[0] = id\nacc += fs[0](3)",
+    "bytes-of-named-string": "var nm Nm = \"abcd\"\nnb := []byte(nm)\nacc += uint64(len(nb))",
+    "bytes-of-string-parenthesised-type": "ps := \"abcde\"\npb := ([]byte)(ps)\nacc += uint64(len(pb))",
+    "uint64-parenthesised-type": "var pw uint32 = 7\nacc += (uint64)(pw)",
+    "pointer-slice-literal-elided-address": "pl := []*S0{{a: 3}}\nacc += pl[0].a",
+    "tuple-assign-index-uses-assigned": "tm := make(map[uint64]uint64)\nvar tk uint64\ntk, tm[tk] = two()\nacc += tm[0] + tk",
+    "tuple-assign-pointer-then-store": "tp := new(uint64)\ntq := new(uint64)\nvar tr *uint64 = tp\ntr, *tr = tq, 5\nacc += *tp + *tq + *tr",
+    "function-field-as-value": "h0 := &H0{cb: id, n: 4}\nhf := h0.cb\nacc += hf(h0.n) + add2(h0.cb(1), 2)",
     "bool-to-var-opassign": "var bo uint64 = 6\nbo |= 9\nbo &= 12\nbo ^= 5\nacc += bo",
 }
 
